@@ -466,7 +466,10 @@ def run(ctx):
         "generation (entry and per-iteration must-pass; a positive poll leaves the loop), MaxGeneration fires iff generation >= limit (evaluated over "
         "<,=,>), composite criteria fire on ANY member; InsertionHeuristic::process polls the quota every round and every path to return passes "
         "finalize_insertion_ctx which moves leftovers to unassigned; the four long-running loops still poll the quota and quota wrappers keep the "
-        "wrapped quota; termination estimates are clamped; Solver::solve maps an empty result to Err.")
+        "wrapped quota; termination estimates are clamped; Solver::solve maps an empty result to Err; the initial-population loop never consults the quota itself "
+        "and every built individual joins the population (I1); decomposed parts reach the merge through element-preserving adapters only and refine maps part to part "
+        "(D1); with a limit configured every path of get_termination to the composite criterion creates and adds the corresponding member, and every built "
+        "configuration passes get_termination(self.max_generations, self.max_time, ..) (G1).")
     ctx.not_decided = "validity of the returned solution itself (C01-C03 value-level), wall-clock timing."
     ctx.assumptions += ["Quota implementations outside the workspace are monotone", "closures are analysed at their construction site"]
     ctx.run("C07-L1", "termination and quota are checked before every generation; MaxGeneration/Composite semantics", l1_loop_guard, floor=7)
